@@ -199,7 +199,17 @@ func (c *channel) Close(err error) {
 		// wait async send finished.
 		if nil != c.writeQueue {
 			var maxWaitNum int
-			for (c.untilWrite || maxWaitNum < 10) && atomic.LoadInt32(&c.running) != idle {
+			for c.untilWrite || maxWaitNum < 10 {
+				if len(c.writeQueue) > 0 {
+					// accepted packets that no sender owns right now (the sender is between
+					// releasing and re-acquiring the queue, or it failed): hand them to a sender.
+					if atomic.CompareAndSwapInt32(&c.running, idle, running) {
+						c.executor.Exec(c.writeOnce)
+					}
+				} else if atomic.LoadInt32(&c.running) == idle {
+					// queue empty and, after that, no sender running: everything accepted was flushed.
+					break
+				}
 				verifAt(vpClosePoll, c)
 				maxWaitNum++
 				time.Sleep(time.Millisecond * 100)
